@@ -21,6 +21,9 @@ def sxStack : SX → Option Stack
       | _ => none)
   | _ => none
 
+/-- separator between the key/value strings and the redacted details of a `tags` recipe -/
+def tagsSep : Str := [0, 82, 69, 68]
+
 def pairUp : List Str → List (Str × Str)
   | a :: b :: r => (a, b) :: pairUp r
   | _ => []
@@ -93,7 +96,10 @@ def evalOp (op : String) (n : Nat) (ss : List Str) (ns : List Nat) (st : Stack)
   | "issuelink" => annot (.withIssueLink s0 (ss.getD 1 []))
   | "telemetry" => annot (.withTelemetry ss)
   | "domain" => annot (.withDomain s0)
-  | "tags" => .ok (cTags n (pairUp ss) k0)
+  | "tags" =>
+    let kv := ss.takeWhile (· ≠ tagsSep)
+    let red := (ss.dropWhile (· ≠ tagsSep)).drop 1
+    .ok (cTags n (pairUp kv) red k0)
   | "assertion" => annot .withAssertionFailure
   | "safedetails" => if ns.getD 0 1 = 0 then .ok k0 else annot (.withSafeDetails ss)
   | "http" => annot (.withHTTPCode (ns.getD 0 0))
